@@ -271,6 +271,15 @@ def check_predicate_constants(report, db, P, R5):
             if isinstance(c, Opaque):
                 # run-time argument (e.g. inside ConnectionContext itself)
                 continue
+            if c is None and (m.name == 'minecraft.utility' or any(
+                    isinstance(k, ast.ClassDef) and
+                    k.name == 'ConnectionContext' and any(
+                        x is n for x in ast.walk(k))
+                    for k in m.tree.body)):
+                # an open bound inside the implementation of the predicates
+                # themselves: what they answer is C08's R08.1 (folded over
+                # all pairs), not a version constant of a table
+                continue
             consts.add(c)
             if c in P.index:
                 report.ok(R5)
